@@ -40,10 +40,14 @@ HAND_FILES = ["Props/C21_ind.v", "Props/C21_model.v"]
 # replace is a substitution: after normalisation both sides are usually syntactically equal; the derivation laws
 # (Ltac of py/C03_coq.py) are only needed when a constant image ended up under a derivative
 TACTIC = ("norm_goal; first [ reflexivity | ring | repeat unify1; first [ reflexivity | ring ] "
-          "| dx_push; cbv [dfn sign_ erf_c]; norm_goal; cond_zero; rewrite ?cond_same; "
+          "| dx_push; cbv [dfn sign_ erf_c]; norm_goal; cplx_zero; cond_zero; rewrite ?cond_same; "
           "first [ fin | repeat unify1; fin | rewrite ?div_def; repeat first [ unify1 | unify_b ]; fin ] ]")
 
 MAX_NODES = 60
+ALGEBRAIC = {"sum", "prod", "div", "neg", "powi", "var", "isum", "dot", "inner", "index", "dx", "divv", "trgrad", "restr",
+             "leaf", "vsum", "scale", "list", "astensor", "grad", "ngrad", "matvec", "vvar", "vdiv", "vdx", "vleaf",
+             "cross", "curl3", "curl2s", "perp", "msum", "mscale", "gradv", "ngradv", "outer", "mastensor", "transpose",
+             "symskew", "mleaf", "mdx"}
 
 
 class SubstSer(ufl2coq.Ser):
@@ -120,7 +124,7 @@ class SubstCase(coqgen.Case):
 
 # ---------------------------------------------------------------------------------------------
 
-def image_for(t, gen, rng, pool):
+def image_for(t, gen, rng, pool, allow_literal):
     """a shape-compatible image for terminal t"""
     sh = t.ufl_shape
     g = gen.g
@@ -132,13 +136,15 @@ def image_for(t, gen, rng, pool):
         return ufl.as_tensor([literal(shape[1:]) for _ in range(shape[0])])
 
     if isinstance(t, C.Constant):
-        return literal(sh), "constant->literal"
+        if allow_literal:
+            return literal(sh), "constant->literal"
+        return ufl.Constant(gen.mesh, sh), "constant->constant"
     if isinstance(t, C.Argument):
         return ufl.Coefficient(t.ufl_function_space()), "argument->coefficient"
     r = rng.random()
     if r < 0.2:
         return ufl.Coefficient(t.ufl_function_space()), "coefficient->coefficient"
-    if r < 0.3:
+    if r < 0.3 and allow_literal:
         return literal(sh), "coefficient->literal"
     if r < 0.45:
         same = [p for p in pool if p.ufl_shape == sh and p is not t]
@@ -149,18 +155,27 @@ def image_for(t, gen, rng, pool):
                             "grad", "vleaf", "msum", "mscale", "outer", "mleaf", "dx"})
     if rng.random() < 0.5:
         g2.f[0] = t if sh == () else g2.f[0]          # images may mention the replaced terminal itself
+    img = None
     if sh == ():
-        return g2.scalar(2, []), "coefficient->expression"
-    if sh == (g,):
-        return g2.vector(1, []), "coefficient->expression"
-    if sh == (g, g):
-        return g2.matrix(1, []), "coefficient->expression"
+        img = g2.scalar(2, [])
+    elif sh == (g,):
+        img = g2.vector(1, [])
+    elif sh == (g, g):
+        img = g2.matrix(1, [])
+    from ufl.domain import extract_domains
+    if img is not None and (allow_literal or extract_domains(ufl.as_ufl(img))):
+        return img, "coefficient->expression"
     return ufl.Coefficient(t.ufl_function_space()), "coefficient->coefficient"
 
 
 def gen_case(k, rng):
     cell = rng.choice(["interval", "triangle", "triangle", "tetrahedron"])
-    gen = C03_gen.Gen(rng, cell, max_leaves=7)
+    # mode B ("algebraic"): only ring operations, indexing and derivatives around the keys, images may be
+    # literals.  mode A: all operators, images are never pure literals -- UFL constructors fold literal
+    # operands of sqrt/abs/Re/conditions numerically (property C05), which is not a fact of the abstract algebra.
+    algebraic = rng.random() < 0.45
+    allow = ALGEBRAIC if algebraic else None
+    gen = C03_gen.Gen(rng, cell, max_leaves=7, allow=allow)
     kind = rng.choice(["scalar", "scalar", "vector", "matrix"])
     body = {"scalar": gen.scalar, "vector": gen.vector, "matrix": gen.matrix}[kind](rng.choice([1, 2, 2, 3]), [])
     e, names = gen.wrap(body, rng.choice([0, 0, 1, 1, 2]))
@@ -179,12 +194,12 @@ def gen_case(k, rng):
     chosen = [t for t in keys if rng.random() < 0.6] or [rng.choice(keys)]
     mapping, kinds = {}, []
     for t in chosen:
-        img, what = image_for(t, gen, rng, keys)
+        img, what = image_for(t, gen, rng, keys, algebraic)
         mapping[t] = img
         kinds.append(what)
     under = sorted({type(p).__name__ for p in ufl.corealg.traversal.unique_pre_traversal(e)
                     if not p._ufl_is_terminal_ and any(o in mapping for o in p.ufl_operands if o._ufl_is_terminal_)})
-    note = {"cell": cell, "kind": kind, "wrap": names, "context": how, "mappings": kinds,
+    note = {"cell": cell, "kind": kind, "wrap": names, "context": how, "mappings": kinds, "algebraic_mode": algebraic,
             "parents_of_keys": under}
     return e, mapping, gen, note
 
@@ -203,9 +218,15 @@ def make_subst_case(name, e, mapping, gen, rng, note):
     out = replace(e, mapping)
     ctx = ufl2coq.Ctx()
     hyps = []
-    if gen is not None:
-        kind, tid, _, _ = ctx.term(gen.q0)
-        hyps = [f"forall s c j, Dx j (env s {kind} {tid} c) = z0"]
+    # coefficients of degree-0 elements are constant on each cell (own criterion, not ufl's is_cellwise_constant)
+    seen = []
+    for x in [e] + [ufl.as_ufl(v) for v in mapping.values()]:
+        for t in extract_type(x, C.Coefficient):
+            if t.ufl_element().embedded_superdegree == 0 and all(t is not u for u in seen):
+                seen.append(t)
+    for t in sorted(seen, key=lambda t: t.count()):
+        kind, tid, _, _ = ctx.term(t)
+        hyps.append(f"forall s c j, Dx j (env s {kind} {tid} c) = z0")
     comps = list(itertools.product(*[range(d) for d in e.ufl_shape]))
     if len(comps) > 6:
         comps = rng.sample(comps, 6)
@@ -329,8 +350,8 @@ def main(run):
         sub = random.Random(rng.randrange(10**9))
         try:
             r = gen_case(k, sub)
-        except ValueError:
-            skipped["invalid_input"] += 1           # building the INPUT failed (e.g. derivative of a literal)
+        except (ValueError, AttributeError, TypeError, RecursionError):
+            skipped["invalid_input"] += 1           # building the INPUT failed (ill-formed operand rejected by UFL)
             continue
         if r is None:
             skipped["no_key"] += 1
@@ -339,7 +360,18 @@ def main(run):
         if tree_size(e, 4 * MAX_NODES) > MAX_NODES or any(tree_size(ufl.as_ufl(v), 200) > 25 for v in mapping.values()):
             skipped["too_large"] += 1
             continue
-        c = make_subst_case(f"r{k}", e, mapping, gen, sub, note)      # errors of the real replace propagate
+        try:
+            c = make_subst_case(f"r{k}", e, mapping, gen, sub, note)
+        except Exception as ex:                                         # the REAL replace raised on a valid input
+            if isinstance(ex, (ValueError, ZeroDivisionError)) and any(
+                    m in str(ex) for m in ("ivision by zero", "math domain", "negative power")):
+                skipped["invalid_input"] += 1       # the images make a literal denominator vanish etc.
+                continue
+            run.violation({"broken": "ufl.replace raised on a shape-compatible mapping", "input_expr": str(e),
+                           "input_repr": repr(e)[:4000],
+                           "mapping": {repr(a): repr(ufl.as_ufl(b))[:1500] for a, b in mapping.items()},
+                           "exception": f"{type(ex).__name__}: {ex}", "note": note}, True)
+            continue
         try:
             c.emit()
         except ufl2coq.Unsupported:
@@ -358,7 +390,7 @@ def main(run):
         run.sample({"case": c.name, "note": c.note, "input": str(c.inp)[:200],
                     "mapping": {str(a): str(b)[:100] for a, b in c.mapping.items()}, "output": str(c.out)[:200]})
 
-    failing = C03_coq.emit_and_check(run, "C21", cases, timeout=1200, extra_header=C03_coq.extra_header(True), shards=16)
+    failing = C03_coq.emit_and_check(run, "C21", cases, timeout=1200 if quick else 2700, extra_header=C03_coq.extra_header(True), shards=16)
 
     # --- shape-changing mappings must be rejected; unmapped expressions are returned unchanged
     gen = C03_gen.Gen(random.Random(2), "triangle")
